@@ -47,7 +47,7 @@ CHECKS["C05"] = dict(category="proof",
    design_ref="6 / C05", note="Trusted: hand model Model.Tables and the flatten model of resortStates/numbering (tied per run to the compiled annotation); Coherent is checked at run time on the generated charts, not proved of flatten; the text of the emitted C/Promela/VHDL is compared by C04/C06/C18.")
 CHECKS["C19"] = dict(category="exploration",
    technique="Lean model of the validator's fatal structural checks compared class-by-class with Interpreter::validate() on valid and corrupted documents; accepted documents are interpreted and every configuration decided by Spec.Legal; crash-freedom on random SCXML-vocabulary XML",
-   text="Soundness: documents validate() accepts are run through the interpreter (no crash, only legal configurations). Completeness: generated valid documents (also with id-less states, null and lua datamodels) must be free of fatal issues and syntax-error warnings. Totality: corrupted documents and random element soup. The Lean model of the fatal checks agrees with the code on all classes; theorems about it are still to come, hence 'exploration'.",
+   text="First soundness theorems (Lean, every document): no fatal issue => every transition target and every initial attribute id resolves to an element (a state-like descendant for initial) - the 'never dereferences a missing state' clause on the model of the validator. The rest is exploration: Soundness: documents validate() accepts are run through the interpreter (no crash, only legal configurations). Completeness: generated valid documents (also with id-less states, null and lua datamodels) must be free of fatal issues and syntax-error warnings. Totality: corrupted documents and random element soup. The Lean model of the fatal checks agrees with the code on all classes; theorems about it are still to come, hence 'exploration'.",
    design_ref="6 / C19", note="Trusted: hand model Model.Validate (structural fatal checks only); generators define what 'valid' means for the completeness stream (ids unique, targets resolve, legal state specifications, one default transition per history/initial).")
 CHECKS["C14"] = dict(category="proof",
    technique="Lean 4 theorem about Model.Serial (what serialize keeps, what deserialize rebuilds): restore (snapshot e) = e up to the observer's log for every snapshotable engine state; its hypothesis is evaluated on every stable point the engine model reaches; differential resume on the compiled interpreter (serialize at a stable point, deserialize into a fresh interpreter - same and foreign document - and run the same continuation on both), both engines, null and lua datamodels",
